@@ -318,7 +318,14 @@ pub fn header_specs(deep: bool) -> Vec<HdrSpec> {
             }
         }
     }
-    out
+    let mut uniq: Vec<HdrSpec> = vec![];
+    let mut seen = std::collections::BTreeSet::new();
+    for s in out {
+        if seen.insert(s.id()) {
+            uniq.push(s);
+        }
+    }
+    uniq
 }
 
 // ---------------------------------------------------------------------------------------
@@ -516,7 +523,14 @@ pub fn befp_specs(w: usize) -> Vec<BefpSpec> {
         }
     }
     out.push(BefpSpec { axis: 0, index: 0, present: all, proof_axes: 0, height: i64::MAX as u64 });
-    out
+    // small widths make some masks coincide
+    let mut uniq: Vec<BefpSpec> = vec![];
+    for s in out {
+        if !uniq.contains(&s) {
+            uniq.push(s);
+        }
+    }
+    uniq
 }
 
 pub fn raw_nmt_proof(p: &nmt_rs::simple_merkle::proof::Proof<celestia_types::nmt::NamespacedSha2Hasher>, ) -> RawNmtRangeProof {
